@@ -48,6 +48,22 @@ class StepInv:
         e['env'] = ('env', c.fresh_name('e'))
 
 
+class PsiStub:
+    """ the state as tdvp_'s driver sees it: canonical or not, canonized on request """
+    def __init__(self, canonical):
+        self.canonical = canonical
+        self.log = []
+
+    def is_canonical(self, to='first', **kw):
+        self.log.append(('is_canonical', to))
+        return self.canonical
+
+    def canonize_(self, to='first', normalize=True):
+        self.log.append(('canonize_', to, normalize))
+        self.canonical = (to == 'first')
+        return self
+
+
 def h_tdvp_steps(V, order, yield_initial, time_dependent):
     from yastn.tn.mps import _tdvp
     from yastn import YastnError
@@ -57,10 +73,14 @@ def h_tdvp_steps(V, order, yield_initial, time_dependent):
     V.assume(And(t1 > t0, dt > 0))
     w = {'t0': t0}
     calls = []
+    canon_at_sweep = []
+    psi0 = PsiStub(canonical=bool(sym.ctx().choose()))           # both cases: provided canonical towards first, or not
+    was_canonical = psi0.canonical
 
     def sweep_stub(interp, real_fn, args, kwargs):
         psi, H, dt0 = args[0], args[1], args[2]
         calls.append((H, dt0))
+        canon_at_sweep.append(psi.canonical)
         return ('env', len(calls))
     for nm in ('_tdvp_sweep_1site_', '_tdvp_sweep_2site_', '_tdvp_sweep_12site_'):
         V.stub(f"{T_}:{nm}", sweep_stub)
@@ -104,8 +124,12 @@ def h_tdvp_steps(V, order, yield_initial, time_dependent):
                     cl.append(('4th-order:generator-evaluated-at-sub-step-midpoints', And(*ok)))
         return cl
     inv.clauses = clauses
-    gen = V.call(_tdvp.tdvp_, 'psi', H, times=(t0, t1), dt=dt, u=1.0, method='1site', order=order, yield_initial=yield_initial)
+    gen = V.call(_tdvp.tdvp_, psi0, H, times=(t0, t1), dt=dt, u=1.0, method='1site', order=order, yield_initial=yield_initial, normalize=False)
     outs = list(gen)
+    # "It is first canonized to the first site, if not provided in such a form" (the sweeps assume that form)
+    V.check('state-canonical-towards-first-at-every-sweep', all(canon_at_sweep))
+    V.check('canonization-keeps-the-requested-normalisation-and-leaves-a-canonical-state-alone',
+            [x for x in psi0.log if x[0] == 'canonize_'] == ([] if was_canonical else [('canonize_', 'first', False)]))
     V.check('one-snapshot-per-interval(+initial)', len(outs) == (2 if yield_initial else 1))
     out = outs[-1]
     steps, ds = w['steps'], w['ds']
@@ -128,7 +152,7 @@ def h_tdvp_args(V):
                      ('missing-opts_svd', dict(times=(0, 1), dt=0.1, method='2site')), ('unknown-method', dict(times=(0, 1), dt=0.1, method='3site')),
                      ('unknown-order', dict(times=(0, 1), dt=0.1, order='3rd'))):
         def run():
-            return list(V.call(_tdvp.tdvp_, 'psi', 'H', **kw))
+            return list(V.call(_tdvp.tdvp_, PsiStub(True), 'H', **kw))
         try:
             V.stub(f"{T_}:_tdvp_sweep_1site_", lambda *a: 'env')
             run()
